@@ -70,3 +70,16 @@ func (c *Ctx) fn(rel, recv, name string) *fnRef {
 	}
 	return &fnRef{F: f, label: label}
 }
+
+// SetTier adjusts engine budgets: the thorough tier enumerates up to 1024 path
+// classes per program point (quick: 96) and lets the end-of-input analysis
+// iterate loops 8 times (quick: 5).
+func SetTier(tier string) {
+	if tier == "thorough" {
+		altBudget = 1024
+		eofMaxIter = 8
+	} else {
+		altBudget = maxAlts
+		eofMaxIter = 5
+	}
+}
